@@ -8,7 +8,8 @@ from concurrent.futures import ThreadPoolExecutor
 EXTRA = {"C09_A": ["C11"], "C09_B": ["C13"], "C14_A": ["C12"], "C12_A": [], "C03_F": ["C04"], "C04_F": ["C02"], "C06_F": ["C10"],
          "C09_E": ["C07"], "C14_E": ["C13"], "C16_F": ["C10", "C17"], "C01_F": ["C10"], "C02_E": ["C12"], "C09_F": ["C11"], "C10_E": ["C16"],
          "C05_G": ["C02"], "C06_G": ["C08"], "C06_H": ["C08"], "C04_H": ["C03"], "C19_G": ["C11"]}
-RETIRED = {"C12_A": "after fix 2328a75 (system mass is propagated before the bookkeeping) the change no longer breaks the property: its demo passes with the change applied"}
+RETIRED = {"C02_B": "after fix 7a23358 (a bond symbol in front of a ring-closure digit is stripped before the bond characters are read) the ring digits no longer reach the lookup the change introduced: its demo passes with the change applied",
+           "C12_A": "after fix 2328a75 (system mass is propagated before the bookkeeping) the change no longer breaks the property: its demo passes with the change applied"}
 args = sys.argv[1:]
 J = 3
 if args and args[0] == "-j":
